@@ -22,8 +22,9 @@ static std::string run_cell(const Cell &c, const KeySpec &k, bool *nt) {
     if (!priv.item || !pub.item) return ""; st.cls("flagged-item-with-loaded-key"); if (ok_strength) { st.cls("flagged-item-at-or-above-floor(not-judged)"); return ""; }
   } else
   if (!priv.ok() || !pub.ok()) {
-    // a key the importer itself refuses is below every floor by construction (e.g. curve unknown to OpenSSL)
-    st.cls("key-refused-by-importer"); return "";
+    // a key the importer itself refuses is below every floor by construction (e.g. curve unknown to OpenSSL); every key of this grid
+    // is one OpenSSL loads, so for a key at or above the floor a refusal means "keys at or above the floor work" is broken
+    st.cls("key-refused-by-importer"); return ok_strength ? std::string("adequate-key-refused-by-importer:") + (priv.item && jwks_item_error_msg(priv.item) ? jwks_item_error_msg(priv.item) : "?") : std::string();
   }
   const AlgInfo *ai = alg_info(c.alg);
   if (c.op == 0) {
